@@ -1357,6 +1357,27 @@ class PolarsModel(data_algebra.data_model.DataModel):
             res = pl.concat([sk] + split, how="horizontal")
         else:
             res = pl.concat(split, how="horizontal")
+        # a control table level with no rows in the data still has its (all missing) columns, as in SQL
+        missing_columns = [c for c in blocks_in.row_columns if c not in res.columns]
+        if len(missing_columns) > 0:
+            value_columns = [
+                c
+                for c in blocks_in.control_table.columns
+                if c not in blocks_in.control_table_keys
+            ]
+            missing_types = dict()
+            for c in missing_columns:
+                for vc in value_columns:
+                    if c in set(blocks_in.control_table[vc]):
+                        missing_types[c] = data.schema[vc]  # keep the level's columns typed
+            res = res.with_columns(
+                [
+                    pl.lit(None).cast(missing_types[c]).alias(c)
+                    if c in missing_types.keys()
+                    else pl.lit(None).alias(c)
+                    for c in missing_columns
+                ]
+            )
         if (blocks_in.record_keys is not None) and (len(blocks_in.record_keys) > 0):
             res = res.sort(blocks_in.record_keys)
         return res
